@@ -64,3 +64,12 @@ def test_hkl_with_rotation_order():
     assert res > 6
     h = qvec.hkl_exact(r, ub, (0.0, float(2 * hp.PI), 0.0))
     assert close(h[0], 1, mpf(10) ** -15) and close(h[1], 0, mpf(10) ** -15)
+
+
+def test_hkl_residual_with_preformed_product():
+    r = geom.quat_to_matrix((0.0, 0.0, 0.5**0.5, 0.5**0.5))
+    ub = geom.mat([[1.0, 0, 0], [0, 2.0, 0], [0, 0, 1.0]])
+    q = (0.3, float(2 * hp.PI), -1.0)
+    a = qvec.hkl_residual(r, ub, (1.0, 0.5, 0.0), q)
+    b = qvec.hkl_residual_a(geom.matmul(r, ub), (1.0, 0.5, 0.0), q)
+    assert a == b
